@@ -1216,3 +1216,317 @@ def f_stream_processor(case):
     srcs = [const_source("a", feeder, 1 + k[6] % 2, n, case["seed"], etype="Go"), poisson_source("b", feeder, 100.0, n, case["seed"] + 1, etype="Go")]
     sim = mksim([proc, feeder, out, late], n + 200, sources=srcs)
     return Scenario(sim, workload=2 * n)
+
+
+# ------------------------------------------------------------------------------ storage engines
+KEYS = [f"key-{c}" for c in "abcdefgh"] + ["user:1", "user:22", "order/7", ""]
+
+
+def kv_workers(store, case, nworkers, nops, salt, ops=("put", "put", "get", "get", "delete", "scan"), start_gap=2):
+    """``nworkers`` harness workers doing ``nops`` random operations each on a map-like store through its
+    generator API, with a >= 1 tick pause between operations (so operations of different workers overlap)."""
+    rnd = rng_of(case, salt)
+    scripts = []
+    for w in range(nworkers):
+        sc = []
+        for i in range(nops):
+            op = rnd.choice(ops)
+            if op == "scan" and not hasattr(store, "scan"):
+                op = "get"
+            if op == "delete" and not hasattr(store, "delete"):
+                op = "put"
+            sc.append((op, rnd.choice(KEYS[:6 + salt % 6]), rnd.randrange(100), 1 + rnd.randrange(3)))
+        scripts.append(sc)
+
+    def run(self, e):
+        for op, key, val, pause in scripts[e.context["w"]]:
+            if op == "put":
+                yield from store.put(key, val)
+                self.log.append(("put", key))
+            elif op == "get":
+                v = yield from store.get(key)
+                self.log.append(("get", key, v))
+            elif op == "delete":
+                yield from store.delete(key)
+                self.log.append(("del", key))
+            else:
+                a, b = sorted([key, KEYS[(val) % 6]])
+                rows = yield from store.scan(a, b)
+                self.log.append(("scan", len(list(rows or []))))
+            yield ticks(pause)
+        return None
+    workers = [Proc(f"worker{w}", run) for w in range(nworkers)]
+    events = [ev(1 + w * start_gap, workers[w], "Start", w=w) for w in range(nworkers)]
+    return workers, events
+
+
+def _logs(workers):
+    return lambda: {"logs": [w.log for w in workers]}
+
+
+@family("kv_store", "strkeys")
+def f_kv_store(case):
+    from happysimulator.components.datastore import KVStore
+    k = K(case)
+    kv = KVStore("kv", read_latency=ticks(1 + k[0] % 3), write_latency=ticks(1 + k[1] % 4),
+                 delete_latency=[None, ticks(1 + k[2] % 3)][k[2] % 2], capacity=[None, 3, 5][k[3] % 3])
+    workers, evs = kv_workers(kv, case, 3 + k[4] % 2, 40, 1, ops=("put", "put", "get", "get", "delete"))
+    sim = mksim([kv] + workers, 1200, events=evs)
+    return Scenario(sim, workload=len(workers) * 40, extra=_logs(workers))
+
+
+def mk_lsm(k, disk=None, name="lsm"):
+    from happysimulator.components.storage import lsm_tree as lt
+    from happysimulator.components.storage import wal as wl
+    s = k[0] % 3
+    strat = [lt.SizeTieredCompaction(min_sstables=2 + k[1] % 3),
+             lt.LeveledCompaction(level_0_max=2 + k[1] % 3, size_ratio=2, base_size_keys=1 + k[2] % 4),
+             lt.FIFOCompaction(max_total_sstables=1 + k[1] % 5)][s]
+    w = k[3] % 4
+    wal = None
+    if w:
+        pol = [None, wl.SyncEveryWrite(), wl.SyncOnBatch(2 + k[2] % 2), wl.SyncPeriodic(ticks(3))][w]
+        wal = wl.WriteAheadLog(f"{name}.wal", sync_policy=pol, write_latency=ticks(1), sync_latency=ticks(1 + k[4] % 2), disk=disk)
+    return lt.LSMTree(name, memtable_size=1 + k[5] % 4, compaction_strategy=strat, wal=wal, disk=disk,
+                      sstable_read_latency=ticks(1), sstable_write_latency=ticks(1 + k[6] % 5), max_levels=2 + k[7] % 3)
+
+
+@family("lsm_tree", "strkeys")
+def f_lsm_tree(case):
+    from happysimulator.components.resource import Resource
+    k = K(case)
+    disk = Resource("disk", capacity=1 + k[4] % 2) if k[7] % 3 == 0 else None
+    lsm = mk_lsm(k, disk)
+    workers, evs = kv_workers(lsm, case, 3, 30, 2)
+    sim = mksim([lsm] + ([disk] if disk else []) + workers, 2500, events=evs)
+    return Scenario(sim, workload=36, extra=lambda: {"logs": [w.log for w in workers], "levels": lsm.level_summary})
+
+
+@family("btree", "strkeys")
+def f_btree(case):
+    from happysimulator.components.resource import Resource
+    from happysimulator.components.storage.btree import BTree
+    k = K(case)
+    disk = Resource("disk", capacity=1 + k[3] % 2) if k[4] % 3 == 0 else None
+    bt = BTree("btree", order=3 + k[0] % 4, disk=disk, page_read_latency=ticks(1 + k[1] % 2), page_write_latency=ticks(1 + k[2] % 3))
+    workers, evs = kv_workers(bt, case, 3, 30, 3)
+    sim = mksim([bt] + ([disk] if disk else []) + workers, 2500, events=evs)
+    return Scenario(sim, workload=36, extra=_logs(workers))
+
+
+@family("wal_memtable", "strkeys")
+def f_wal_memtable(case):
+    from happysimulator.components.storage import wal as wl
+    from happysimulator.components.storage.memtable import Memtable
+    k = K(case)
+    pol = [wl.SyncEveryWrite(), wl.SyncOnBatch(2 + k[0] % 3), wl.SyncPeriodic(ticks(2 + k[1] % 5))][k[2] % 3]
+    wal = wl.WriteAheadLog("wal", sync_policy=pol, write_latency=ticks(1), sync_latency=ticks(1 + k[3] % 3))
+    mem = Memtable("memtable", size_threshold=3 + k[4] % 5, write_latency=ticks(1), read_latency=ticks(1))
+    rnd = rng_of(case, 4)
+
+    def writer(self, e):
+        for i in range(10):
+            key = rnd.choice(KEYS[:6])
+            seq = yield from wal.append(key, i)
+            full = yield from mem.put(key, i)
+            v = yield from mem.get(rnd.choice(KEYS[:6]))
+            self.log.append((seq, bool(full), v))
+            if mem.is_full:
+                sst = mem.flush()
+                wal.truncate(seq)
+                self.log.append(("flush", sst.key_count))
+            yield ticks(1 + rnd.randrange(2))
+    ws = [Proc(f"writer{i}", writer) for i in range(3)]
+    sim = mksim([wal, mem] + ws, 500, events=[ev(1 + i, w, "Start") for i, w in enumerate(ws)])
+    return Scenario(sim, workload=30, extra=lambda: {"logs": [w.log for w in ws], "synced": wal.synced_up_to})
+
+
+@family("transaction_manager", "strkeys")
+def f_transaction_manager(case):
+    from happysimulator.components.datastore import KVStore
+    from happysimulator.components.storage.btree import BTree
+    from happysimulator.components.storage.transaction_manager import IsolationLevel, TransactionManager
+    k = K(case)
+    which = k[0] % 3
+    if which == 0:
+        store = KVStore("kv", read_latency=ticks(1), write_latency=ticks(1 + k[1] % 2))
+    elif which == 1:
+        store = mk_lsm([k[1], k[2], 1, 0, 0, k[3], 0, 1], name="txlsm")
+    else:
+        store = BTree("txbtree", order=4, page_read_latency=ticks(1), page_write_latency=ticks(1))
+    iso = [IsolationLevel.READ_COMMITTED, IsolationLevel.SNAPSHOT_ISOLATION, IsolationLevel.SERIALIZABLE][k[4] % 3]
+    tm = TransactionManager("tm", store=store, isolation=iso, deadlock_detection=bool(k[5] % 2))
+    for i, key in enumerate(KEYS[:4]):
+        store.put_sync(key, i)
+    rnd = rng_of(case, 5)
+
+    def txn_worker(self, e):
+        for _ in range(4):
+            tx = yield from tm.begin()
+            for _ in range(1 + rnd.randrange(3)):
+                key = rnd.choice(KEYS[:4])
+                if rnd.randrange(2):
+                    v = yield from tx.read(key)
+                    self.log.append(("r", key, v))
+                else:
+                    yield from tx.write(key, rnd.randrange(100))
+                yield ticks(1)
+            if rnd.randrange(5) == 0:
+                tx.abort()
+                self.log.append("abort")
+            else:
+                ok = yield from tx.commit()
+                self.log.append(("commit", bool(ok)))
+            yield ticks(1 + rnd.randrange(2))
+    ws = [Proc(f"txw{i}", txn_worker) for i in range(3)]
+    sim = mksim([store, tm] + ws, 800, events=[ev(1 + i, w, "Start") for i, w in enumerate(ws)])
+    return Scenario(sim, workload=12 * 3, extra=_logs(ws))
+
+
+# ------------------------------------------------------------------------------ caches / datastore
+EVICTION_NAMES = ["LRU", "LFU", "TTL-wallclock", "TTL-simclock", "FIFO", "Random", "SLRU", "SampledLRU", "Clock", "TwoQueue"]
+
+
+def mk_eviction(idx, seed, a, holder):
+    from happysimulator.components.datastore import eviction_policies as ep
+    name = pick(EVICTION_NAMES, idx)
+    if name == "LRU":
+        return ep.LRUEviction()
+    if name == "LFU":
+        return ep.LFUEviction()
+    if name == "TTL-wallclock":
+        return ep.TTLEviction(ttl=[0.002, 0.02, 30.0][a % 3])       # default clock_func (the library default)
+    if name == "TTL-simclock":
+        return ep.TTLEviction(ttl=ticks(4 + a % 12), clock_func=lambda: holder["e"].now.to_seconds())
+    if name == "FIFO":
+        return ep.FIFOEviction()
+    if name == "Random":
+        return ep.RandomEviction(seed=seed)
+    if name == "SLRU":
+        return ep.SLRUEviction(protected_ratio=[0.8, 0.5, 0.2][a % 3])
+    if name == "SampledLRU":
+        return ep.SampledLRUEviction(sample_size=1 + a % 3, seed=seed)
+    if name == "Clock":
+        return ep.ClockEviction()
+    return ep.TwoQueueEviction(kin_ratio=[0.25, 0.5][a % 2])
+
+
+@family("cached_store", "strkeys")
+def f_cached_store(case):
+    from happysimulator.components.datastore import CachedStore, CacheWarmer, KVStore
+    k = K(case)
+    holder = {}
+    kv = KVStore("db", read_latency=ticks(2 + k[0] % 3), write_latency=ticks(2 + k[1] % 3))
+    for i, key in enumerate(KEYS[:8]):
+        kv.put_sync(key, i)
+    cs = CachedStore("cache", kv, cache_capacity=2 + k[2] % 4, eviction_policy=mk_eviction(k[3], case["seed"], k[4], holder),
+                     cache_read_latency=ticks(1), write_through=bool(k[5] % 2))
+    holder["e"] = cs
+    warmer = CacheWarmer("warmer", cs, keys_to_warm=KEYS[:3 + k[6] % 4], warmup_rate=512.0 / (1 + k[7] % 3), warmup_latency=ticks(1))
+    workers, evs = kv_workers(cs, case, 3, 30, 7, ops=("put", "get", "get", "get", "delete"))
+
+    def flusher(self, e):
+        n = yield from cs.flush()
+        self.log.append(n)
+        cs.invalidate(KEYS[self.events_received % 6])
+    fl = Proc("flusher", flusher)
+    evs += [ev(20 + 25 * i, fl, "Flush") for i in range(4)]
+    sim = mksim([kv, cs, warmer, fl] + workers, 1500, events=evs)
+    sim.schedule(warmer.start_warming())
+    return Scenario(sim, workload=90, extra=lambda: {"logs": [w.log for w in workers], "cached": sorted(cs.get_cached_keys())})
+
+
+@family("multi_tier_cache", "strkeys")
+def f_multi_tier_cache(case):
+    from happysimulator.components.datastore import CachedStore, KVStore, MultiTierCache
+    from happysimulator.components.datastore.multi_tier_cache import PromotionPolicy
+    k = K(case)
+    holder = {}
+    kv = KVStore("db", read_latency=ticks(3), write_latency=ticks(3))
+    for i, key in enumerate(KEYS[:8]):
+        kv.put_sync(key, i)
+    tiers = [CachedStore(f"L{i + 1}", kv, cache_capacity=1 + (k[i] + i) % 3 + i, eviction_policy=mk_eviction(k[2 + i], case["seed"] + i, k[4], holder),
+                         cache_read_latency=ticks(1 + i), write_through=True) for i in range(2)]
+    holder["e"] = kv
+    mt = MultiTierCache("tiers", tiers=tiers, backing_store=kv,
+                        promotion_policy=[PromotionPolicy.ALWAYS, PromotionPolicy.ON_SECOND_ACCESS, PromotionPolicy.NEVER][k[5] % 3])
+    workers, evs = kv_workers(mt, case, 3, 30, 8, ops=("put", "get", "get", "get", "delete"))
+    sim = mksim([kv, mt] + tiers + workers, 1500, events=evs)
+    return Scenario(sim, workload=90, extra=lambda: {"logs": [w.log for w in workers], "tier_stats": mt.get_tier_stats()})
+
+
+@family("soft_ttl_cache", "strkeys")
+def f_soft_ttl_cache(case):
+    from happysimulator.components.datastore import KVStore, SoftTTLCache
+    k = K(case)
+    kv = KVStore("db", read_latency=ticks(2 + k[0] % 4), write_latency=ticks(2))
+    for i, key in enumerate(KEYS[:8]):
+        kv.put_sync(key, i)
+    soft = 3 + k[1] % 8
+    sc = SoftTTLCache("softttl", kv, soft_ttl=ticks(soft), hard_ttl=Duration((soft + 2 + k[2] % 10) * TICK),
+                      cache_capacity=[None, 3][k[3] % 2], cache_read_latency=ticks(1))
+    workers, evs = kv_workers(sc, case, 3, 40, 9, ops=("put", "get", "get", "get", "get"))
+    sim = mksim([kv, sc] + workers, 1500, events=evs)
+    return Scenario(sim, workload=120, extra=_logs(workers))
+
+
+@family("database", "strkeys")
+def f_database(case):
+    from happysimulator.components.datastore import Database
+    k = K(case)
+    lat = {"SELECT": ticks(1 + k[0] % 3), "UPDATE": ticks(2 + k[1] % 3)}
+    db = Database("db", max_connections=1 + k[2] % 3, query_latency=(lambda q: lat.get(q.split()[0], ticks(1))) if k[3] % 2 else ticks(2),
+                  connection_latency=ticks(1 + k[4] % 2), commit_latency=ticks(1 + k[5] % 2), rollback_latency=ticks(1))
+    db.create_table("users")
+    rnd = rng_of(case, 10)
+
+    def client(self, e):
+        for i in range(5):
+            if rnd.randrange(3):
+                r_ = yield from db.execute(f"SELECT * FROM users WHERE id = {rnd.randrange(5)}")
+                self.log.append(("q", r_ is not None))
+            else:
+                tx = yield from db.begin_transaction()
+                yield from tx.execute(f"UPDATE users SET v = {i} WHERE id = {rnd.randrange(5)}")
+                if rnd.randrange(4):
+                    yield from tx.commit()
+                else:
+                    yield from tx.rollback()
+                self.log.append("tx")
+            yield ticks(1 + rnd.randrange(2))
+    cs = [Proc(f"dbclient{i}", client) for i in range(4)]
+    sim = mksim([db] + cs, 800, events=[ev(1 + i, c, "Start") for i, c in enumerate(cs)])
+    return Scenario(sim, workload=20, extra=_logs(cs))
+
+
+@family("sharded_store", "hashroute", "strkeys")
+def f_sharded_store(case):
+    from happysimulator.components.datastore import KVStore, ShardedStore
+    from happysimulator.components.datastore import sharded_store as ss
+    k = K(case)
+    shards = [KVStore(f"shard{i}", read_latency=ticks(1 + (k[0] + i) % 2), write_latency=ticks(1 + (k[1] + i) % 3)) for i in range(2 + k[2] % 3)]
+    strat = [ss.HashSharding(), ss.RangeSharding(), ss.RangeSharding(boundaries=["key-c", "key-f", "user"][:len(shards) - 1]),
+             ss.ConsistentHashSharding(virtual_nodes=1 + k[3] % 30, seed=case["seed"])][k[4] % 4]
+    st = ShardedStore("sharded", shards, sharding_strategy=strat)
+    workers, evs = kv_workers(st, case, 3, 30, 11, ops=("put", "put", "get", "get", "delete"))
+
+    def gather(self, e):
+        res = yield from st.scatter_gather(KEYS[:5])
+        self.log.append(sorted((k_, v) for k_, v in res.items() if v is not None))
+    g = Proc("gather", gather)
+    sim = mksim([st, g] + shards + workers, 1500, events=evs + [ev(15 * (i + 1), g, "Gather") for i in range(4)])
+    return Scenario(sim, workload=90, extra=lambda: {"logs": [w.log for w in workers], "sizes": st.get_shard_sizes(), "g": g.log})
+
+
+@family("replicated_store", "strkeys")
+def f_replicated_store(case):
+    from happysimulator.components.datastore import KVStore, ReplicatedStore
+    from happysimulator.components.datastore.replicated_store import ConsistencyLevel as CL
+    k = K(case)
+    reps = [KVStore(f"replica{i}", read_latency=ticks(1 + (k[0] + 2 * i) % 5), write_latency=ticks(1 + (k[1] + i) % 6)) for i in range(3 + k[2] % 2)]
+    lv = [CL.ONE, CL.QUORUM, CL.ALL]
+    rs = ReplicatedStore("replicated", reps, read_consistency=lv[k[3] % 3], write_consistency=lv[k[4] % 3],
+                         read_timeout=ticks(3 + k[5] % 6), write_timeout=ticks(3 + k[6] % 8))
+    workers, evs = kv_workers(rs, case, 3, 24, 12, ops=("put", "put", "get", "get", "delete"))
+    sim = mksim([rs] + reps + workers, 1500, events=evs)
+    return Scenario(sim, workload=72, extra=lambda: {"logs": [w.log for w in workers], "status": rs.get_replica_status()})
